@@ -238,6 +238,9 @@ func (g *etGen) stmt(st ast.Stmt) string {
 		if len(st.Lhs) != 1 || len(st.Rhs) != 1 {
 			return unk
 		}
+		if g.s.text(st) == "t.writer = *conn" {
+			return "TSwitchWriter" // conn: the accepted tunnel connection (only inside the CWindow test)
+		}
 		lhs, ok := st.Lhs[0].(*ast.Ident)
 		if !ok {
 			return unk
@@ -275,6 +278,8 @@ func (g *etGen) stmt(st ast.Stmt) string {
 		if st.Init != nil {
 			if g.s.text(st.Init) == "e, ok := err.(*trzszError)" && g.s.text(st.Cond) == "ok" {
 				c = "CIsTrz"
+			} else if g.s.text(st.Init) == "conn := t.tunnelConn.Load()" && g.s.text(st.Cond) == "conn != nil && !t.tunnelConnected" {
+				c = "CWindow" // a tunnel connection was accepted, the ACT has not been read
 			} else {
 				return unk
 			}
